@@ -546,6 +546,10 @@ func buildResponse(sc *Scenario, v *BackendView) *builtResponse {
 	if isErr && errSpec == nil {
 		errSpec = &ErrSpec{Code: 2, Message: "unspecified"}
 	}
+	if isErr && b.CodeRaw != "" {
+		// a raw status text replaces the code; details (which embed a code of their own) are dropped
+		errSpec = &ErrSpec{Code: errSpec.Code, Message: errSpec.Message}
+	}
 	appTrailers := kvHeader(b.Trailers)
 	switch {
 	case v.Protocol == ProtoGRPC || v.Protocol == ProtoGRPCWeb:
@@ -621,7 +625,7 @@ func buildResponse(sc *Scenario, v *BackendView) *builtResponse {
 			if b.CodeRaw != "" {
 				var e map[string]any
 				_ = json.Unmarshal(connectErrorJSONFor(errSpec), &e)
-				e["code"] = b.CodeRaw
+				e["code"] = connectRawCode(b.CodeRaw)
 				end["error"] = e
 			}
 		}
@@ -644,7 +648,7 @@ func buildResponse(sc *Scenario, v *BackendView) *builtResponse {
 			if b.CodeRaw != "" {
 				var e map[string]any
 				_ = json.Unmarshal(body, &e)
-				e["code"] = b.CodeRaw
+				e["code"] = connectRawCode(b.CodeRaw)
 				body, _ = json.Marshal(e)
 			}
 			out.Body = body
@@ -667,6 +671,10 @@ func buildResponse(sc *Scenario, v *BackendView) *builtResponse {
 				out.Status = 500
 			}
 			out.Header.Set("Content-Type", "application/json")
+			if n, ok := restRawCode(b); ok {
+				errSpec = &ErrSpec{Code: int64(n), Message: errSpec.Message}
+				out.Status = 500
+			}
 			body, err := restErrorJSONFor(errSpec)
 			if err != nil {
 				body, _ = protojson.Marshal((&ErrSpec{Code: errSpec.Code, Message: errSpec.Message}).statusProto())
@@ -806,6 +814,27 @@ func writeResponse(sc *Scenario, resp *builtResponse, w http.ResponseWriter) {
 			fl.Flush()
 		}
 	}
+}
+
+// restRawCode: a raw status text can only be expressed by a REST backend when
+// it is a positive int32.
+func restRawCode(b *Backend) (int32, bool) {
+	if b.CodeRaw == "" {
+		return 0, false
+	}
+	n, err := strconv.ParseInt(b.CodeRaw, 10, 32)
+	if err != nil || n <= 0 {
+		return 0, false
+	}
+	return int32(n), true
+}
+
+// connectRawCode: Connect spells codes without a name as "code_<n>".
+func connectRawCode(raw string) string {
+	if n, err := strconv.ParseUint(raw, 10, 32); err == nil {
+		return "code_" + strconv.FormatUint(n, 10)
+	}
+	return raw
 }
 
 // ---- small helpers -----------------------------------------------------------------
